@@ -176,6 +176,7 @@ type RunResult struct {
 	CtrDelta map[string]float64
 	SchedHash string
 	InUse     int
+	SeedSnap  *Snapshot
 }
 
 func (e *Engine) taskName() string {
@@ -418,11 +419,16 @@ var runCounter atomic.Int64
 func (e *Engine) openStore() error {
 	switch e.plan.Cfg.Store {
 	case "sqlite":
-		e.dir = filepath.Join(scratchRoot, fmt.Sprintf("verifsim-%d-%d", os.Getpid(), runCounter.Add(1)))
-		if err := os.MkdirAll(e.dir, 0o700); err != nil {
-			return err
+		var path string
+		if e.plan.Cfg.DBPath != "" {
+			path = e.plan.Cfg.DBPath
+		} else {
+			e.dir = filepath.Join(scratchRoot, fmt.Sprintf("verifsim-%d-%d", os.Getpid(), runCounter.Add(1)))
+			if err := os.MkdirAll(e.dir, 0o700); err != nil {
+				return err
+			}
+			path = filepath.Join(e.dir, "w.db")
 		}
-		path := filepath.Join(e.dir, "w.db")
 		drv := "sqlite3"
 		if e.plan.Cfg.Seam == "driver" {
 			drv = "sqlite3-sim"
@@ -997,6 +1003,14 @@ func Execute(t *testing.T, plan *Plan) (res *RunResult) {
 		defer e.seamsOn.Store(false)
 		if e.side != e.inner {
 			_ = e.side.Init()
+		}
+		if plan.Cfg.DBPath != "" {
+			// continuing on an existing store: the harness's view starts from what the store holds
+			seed := e.snapshot()
+			res.SeedSnap = seed
+			for id, b := range seed.CP {
+				e.tracked[id] = parseStored([]byte(b))
+			}
 		}
 		e.ctr0 = recorder.Snapshot()
 		for _, f := range plan.Faults {
